@@ -28,7 +28,7 @@ def kname(K):
                                                    ', field lookup' if K.get('lookup') else '')
 
 
-def extract(mod, rep=None, lookups=True):
+def extract(mod, rep=None, lookups=True, stubcmp=False):
     """-> (table: {(tokname, flags, dz, lookup): {mode: [outcomes]}}, modes, stats)"""
     lay = stepm.Layout(mod)
     tc = stepm.token_classes()
@@ -53,6 +53,7 @@ def extract(mod, rep=None, lookups=True):
                     K = dict(K)
                     K['mode'] = m
                     K['lookup'] = lk
+                    K['stubcmp'] = stubcmp
                     todo.append(K)
         if not todo:
             break
